@@ -459,7 +459,7 @@ func init() {
 			}
 			c11Check(c, c11Get(t, 10, nil), path, text, "float-witnesses")
 		case 4: // choices
-			sets := [][]string{{"cat", "dog"}, {"1", "10"}, {"a b", "Cat", "c"}, {"rw,sync", "ro"}, {"c1", "c2", "c3", "c4", "c5", "c6", "c7"}}
+			sets := [][]string{{"cat", "dog"}, {"1", "10"}, {"a b", "Cat", "c"}, {"rw,sync", "ro"}, {"c1", "c2", "c3", "c4", "c5", "c6", "c7"}, {"only"}}
 			si := c.Choose(len(sets))
 			t := decl.TString
 			if si == 1 {
@@ -469,7 +469,7 @@ func init() {
 			c11EditedChoices = nil
 			if c.Bool() && (path == c11PathInline || path == c11PathSeparate) {
 				// the same option first carried another choice set (sharing one member) and was used once with it
-				c11EditedChoices = [][]string{{"cat", "bird"}, {"10", "2"}, {"c", "zzz"}, {"ro", "x"}, {"c7", "c9"}}[si]
+				c11EditedChoices = [][]string{{"cat", "bird"}, {"10", "2"}, {"c", "zzz"}, {"ro", "x"}, {"c7", "c9"}, {"only", "other"}}[si]
 				defer func() { c11EditedChoices = nil }()
 			}
 			// the help text is rendered before the value is given (rendering must not touch the declared choices)
@@ -492,7 +492,7 @@ func init() {
 		Rule: "(i) every value of int8/uint8/int16/uint16 plus two out-of-range neighbours on each side, rendered in every base 2..36 in both letter cases; " +
 			"(ii) min-1,min,min+1,-1,0,1,max-1,max,max+1,2^64,2^128,-2^63,-2^63-1 for int/int16/int32/int64/uint/uint16/uint32/uint64 in bases 10,2,8,16,36, with and without a leading zero, through 6 paths (--val=V, --val V, default tag, environment, positional, INI entry); " +
 			"(iii) every string of length <= 4 over {0 1 9 a f z - + . e x _ space I n :} for 13 types x bases 10,2,16,36 (thorough: also via default tag and positional); (iv) 56 float rounding/limit/spelling witnesses x sign x float32/float64 x 6 paths; " +
-			"(v) choice sets (incl. a member containing a comma and a set of seven; also: the help text rendered first; also: a different set first, one use, then the set edited through Option.Choices) x near-miss values (prefix, suffix, case, padding, leading zero/plus) x 4 paths; (vi) lists in an environment variable split on env-delim {',', ';;'} for []int, []string, map[string]int, []uint8: 8 piece patterns with empty, blank-padded and unconvertible pieces (every piece is a value of the element type: an empty piece is an element of a []string and a fault for a number); (viii) a func(string) option with choices x 7 values x 2 spellings (the callback runs only for members); (vii) INI values that look as if they ended in a comment (80 #1, a ; b ...) for uint16, int, string; (ii), (iv) and (v) also with IgnoreUnknown set on the parser; oracle: own digit parser + math/big (integers), big.Rat nearest-even (floats), three classes must-accept / must-reject / grey; " +
+			"(v) choice sets (incl. a member containing a comma, a set of seven and a set of one; also: the help text rendered first; also: a different set first, one use, then the set edited through Option.Choices) x near-miss values (prefix, suffix, case, padding, leading zero/plus) x 4 paths; (vi) lists in an environment variable split on env-delim {',', ';;'} for []int, []string, map[string]int, []uint8: 8 piece patterns with empty, blank-padded and unconvertible pieces (every piece is a value of the element type: an empty piece is an element of a []string and a fault for a number); (viii) a func(string) option with choices x 7 values x 2 spellings (the callback runs only for members); (vii) INI values that look as if they ended in a comment (80 #1, a ; b ...) for uint16, int, string; (ii), (iv) and (v) also with IgnoreUnknown set on the parser; oracle: own digit parser + math/big (integers), big.Rat nearest-even (floats), three classes must-accept / must-reject / grey; " +
 			"distinct = distinct (type, base, class, accepted?, stored value)",
 		Assumptions:  []string{"duration syntax is Go's time.ParseDuration (trusted)", "bool spellings other than true/false, a leading '+', inf/nan/hex-float/underscore spellings are grey: acceptance not asserted, exactness is"},
 		RequiredHits: []string{"must-accept", "must-reject", "grey", "not-a-choice"},
